@@ -32,9 +32,14 @@ type recorder struct {
 	mu    sync.Mutex
 	paths []string
 	serve func(path string) (int, []byte)
+	// breakBody, if set, says for which requests the 200 response's body breaks off
+	breakBody func(path string) bool
 }
 
 func (r *recorder) RoundTrip(req *http.Request) (*http.Response, error) {
+	if err := req.Context().Err(); err != nil {
+		return nil, err // like a real transport: a request whose context is over is not sent
+	}
 	p := req.URL.EscapedPath()
 	r.mu.Lock()
 	r.paths = append(r.paths, p)
@@ -43,8 +48,17 @@ func (r *recorder) RoundTrip(req *http.Request) (*http.Response, error) {
 	if r.serve != nil {
 		code, body = r.serve(p)
 	}
-	return &http.Response{StatusCode: code, Status: strconv.Itoa(code), Body: io.NopCloser(bytes.NewReader(body)), Header: http.Header{}, Request: req}, nil
+	resp := &http.Response{StatusCode: code, Status: strconv.Itoa(code), Body: io.NopCloser(bytes.NewReader(body)), Header: http.Header{}, Request: req, ContentLength: int64(len(body))}
+	if r.breakBody != nil && r.breakBody(p) {
+		// the connection dies in the middle of the body
+		resp.Body = io.NopCloser(io.MultiReader(bytes.NewReader(body[:len(body)/2]), brokenReader{}))
+	}
+	return resp, nil
 }
+
+type brokenReader struct{}
+
+func (brokenReader) Read([]byte) (int, error) { return 0, io.ErrUnexpectedEOF }
 
 // TileCase is one tile coordinate.
 type TileCase struct {
@@ -412,6 +426,9 @@ type CycleCase struct {
 	// moved (honestly, by "another feeder") to an intermediate size Sizes[i-1] < B < Sizes[i],
 	// so the feeder's submission is refused as stale and it must redo the step from B.
 	Bump []uint64 `json:"bump,omitempty"`
+	// BreakTile k > 0: the k-th tile response of the run is a 200 whose body breaks off half
+	// way (connection lost); the feeder must get over it in a later attempt or cycle
+	BreakTile int `json:"break_tile,omitempty"`
 }
 
 // bumpAdapter moves the witness forward behind the feeder's back, once per armed step.
@@ -467,6 +484,22 @@ func runCycles(c *CycleCase) (bool, []string, error) {
 			return 500, []byte(err.Error())
 		}
 		return 200, data
+	}
+	tileReqs, broke := 0, false
+	if c.BreakTile > 0 {
+		rec.breakBody = func(p string) bool {
+			if !strings.Contains(p, "/tile/") {
+				return false
+			}
+			mu.Lock()
+			defer mu.Unlock()
+			tileReqs++
+			if tileReqs == c.BreakTile {
+				broke = true
+				return true
+			}
+			return false
+		}
 	}
 	hc := &vlib.HistCase{Prop: "C18", Storage: "mem", Seed: "S", Logs: []vlib.LogSpec{{Origin: sumdbOrigin, KeyLabel: "sumdb", KeyName: "sum.example"}}, WKeys: vlib.LegacyWKeys}
 	e := vlib.NewEnv(hc)
@@ -525,11 +558,16 @@ func runCycles(c *CycleCase) (bool, []string, error) {
 	if ba.done > 0 {
 		cls = append(cls, "witness-moved-under-the-feeder")
 	}
+	mu.Lock()
+	if broke {
+		cls = append(cls, "tile-body-broke-off")
+	}
+	mu.Unlock()
 	return partial, cls, nil
 }
 
 func TestC18Cycles(t *testing.T) {
-	st := vlib.StatsFor("C18", "cycles", "ONE periodic sumdb.FeedLog (interval 15ms) follows a stub SumDB that grows through 3-7 drawn sizes (steps inside one tile, across tile boundaries, up to 2^17) into a real witness: in about half of the steps the witness is moved honestly to an intermediate size while the feeder is submitting (its submission is refused as stale and it must redo the step from there); state carried by the feeder across cycles and retries must not spoil later proofs; non-trivial = a partial tile was needed")
+	st := vlib.StatsFor("C18", "cycles", "ONE periodic sumdb.FeedLog (interval 15ms) follows a stub SumDB that grows through 3-7 drawn sizes (steps inside one tile, across tile boundaries, up to 2^17) into a real witness: in about half of the steps the witness is moved honestly to an intermediate size while the feeder is submitting (its submission is refused as stale and it must redo the step from there); in half of the cases one tile response breaks off in the middle of its body; state carried by the feeder across cycles and retries must not spoil later proofs; non-trivial = a partial tile was needed")
 	rapid.Check(t, func(rt *rapid.T) {
 		n := rapid.IntRange(3, 7).Draw(rt, "n")
 		c := &CycleCase{}
@@ -550,8 +588,11 @@ func TestC18Cycles(t *testing.T) {
 			}
 			c.Bump = append(c.Bump, b)
 		}
+		if rapid.Bool().Draw(rt, "breaktile") {
+			c.BreakTile = rapid.IntRange(1, 6).Draw(rt, "breakat")
+		}
 		nt, cl, err := runCycles(c)
-		st.Record(fmt.Sprint(c.Sizes, c.Bump), nt, cl, vlib.SampleOf(c))
+		st.Record(fmt.Sprint(c.Sizes, c.Bump, c.BreakTile), nt, cl, vlib.SampleOf(c))
 		if err != nil {
 			vlib.SaveFailure("C18", "cycles", c, err)
 			rt.Fatalf("C18 violated: %v", err)
